@@ -614,7 +614,7 @@ def run(ctx):
     chunks = 32
     import multiprocessing as mp
     with mp.Pool(16) as pool:
-        parts = pool.map(_chunk, [(ctx.seed * 1000 + c, n // chunks + 1) for c in range(chunks)])
+        parts = lib.safe_map(pool, _chunk, [(ctx.seed * 1000 + c, n // chunks + 1) for c in range(chunks)])
     for ev, dist, fl, smp, bad in parts:
         evals += ev
         distinct |= dist
